@@ -364,12 +364,13 @@ func c18fanin(c *an.Ctx) {
 				if k, isC := an.ConstInt(b.Y); isC && k == 0 {
 					for _, t := range an.BoolTests(b) {
 						okS := true
-						q := &an.PathQ{Fn: fn, StartEdges: []an.Edge{t.True}, Sink: func(x ssa.Instruction, _ *an.PathState) bool {
+						q := &an.PathQ{Fn: fn, StartEdges: []an.Edge{t.True}, Sink: func(x ssa.Instruction, ps *an.PathState) bool {
 							r, ok := x.(*ssa.Return)
 							if !ok {
 								return false
 							}
-							e := errOperand(r)
+							// the error this path returns (`return data, partialErr` behind a merge is resolved per path)
+							e := an.Resolve(ps.Selected(errOperand(r)))
 							mi, isMI := e.(*ssa.MakeInterface)
 							return !(isMI && typeStrShort(mi.X.Type()) == "clusterinfo.ErrList")
 						}}
@@ -377,9 +378,19 @@ func c18fanin(c *an.Ctx) {
 							okS = false
 						}
 						// the false edge returns nil error
-						q2 := &an.PathQ{Fn: fn, StartEdges: []an.Edge{t.False}, Sink: func(x ssa.Instruction, _ *an.PathState) bool {
+						q2 := &an.PathQ{Fn: fn, StartEdges: []an.Edge{t.False}, Sink: func(x ssa.Instruction, ps *an.PathState) bool {
 							r, ok := x.(*ssa.Return)
-							return ok && !an.IsNilConst(errOperand(r))
+							if !ok {
+								return false
+							}
+							e := errOperand(r)
+							if an.IsNilConst(e) || an.IsNilConst(ps.Selected(e)) {
+								return false
+							}
+							if kc, known := ps.ConstOf(e); known && kc.IsNil() {
+								return false
+							}
+							return true
 						}}
 						if _, bad := q2.Find(); bad {
 							okS = false
